@@ -1,7 +1,7 @@
 """C13 - frozen values stay alive while reachable (structural clauses)."""
 import re
 
-from kern import calls_by_name, callers, forward_locals, locals_in, origins, outcome_edges, top_fn
+from kern import calls_by_name, callers, forward_locals, locals_in, origins, outcome_edges, short_fn, top_fn
 
 DESCRIPTION = ("C13 clauses decided: R1 at each site that hands a frozen value of heap A to heap/owner B the "
                "add_reference call dominates the hand-out (12 instances, 3 shapes) and add_reference itself inserts "
@@ -103,7 +103,11 @@ def r1(ctx, F):
                       "add_reference on every path before the populated environment becomes visible",
                       "a path populates the static environment without referencing the heap of its members", fn=f)
         elif shape == "loop-before-sink":
-            ref = calls_by_name(f, r"heap_type::Heap::<'v>::referenced_heaps$")
+            # the accessor is recognised by what it is, not by its name: a method of the unfrozen Heap whose result
+            # carries FrozenHeapRef values
+            ref = [c for c in f.calls if c.bb not in f.cleanup and not c.indirect
+                   and re.search(r"heap_type::Heap::<'v>::\w+$", c.name)
+                   and "FrozenHeapRef" in f.locals.get(c.dest_local, "")]
             sinks = calls_by_name(f, spat)
             nxt = [c for c in f.calls if re.search(r"Iterator>::next$", c.name) and c.bb not in f.cleanup]
             if not ref or not sinks:
@@ -237,8 +241,47 @@ def r3(ctx, F):
               "the empty-heap shortcut can be taken while the heap still holds memory or references", fn=f)
 
 
+REFSET = re.compile(r"SmallSet(::)?<[^>]*heap_type::FrozenHeapRef>")
+REFSET_WRITERS = {"Heap::add_reference", "FrozenHeap::add_reference"}
+REFSET_SHRINK = re.compile(r"::(remove\w*|clear|take|retain\w*|pop|drain|shift_remove\w*|swap_remove\w*|truncate|"
+                           r"sort\w*|reverse)$")
+
+
+def r4_refs_only_grow(ctx, F):
+    """the set of frozen heaps a live heap depends on only grows: the refs sets of Heap and FrozenHeap are written only
+    by add_reference (insert), consumed only when a FrozenHeap is sealed, and never taken, cleared or replaced"""
+    n = 0
+    for f in F.fns.values():
+        if f.crate != "starlark":
+            continue
+        for c in f.calls:
+            if c.indirect or c.bb in f.cleanup or not REFSET.search(c.full):
+                continue
+            n += 1
+            s = short_fn(top_fn(F, f).qpath)
+            last = c.name.split("::")[-1]
+            if re.search(r"RefCell::<.*>::(borrow_mut|get_mut|replace\w*|take|swap)$|DerefMut>::deref_mut$", c.full):
+                ctx.check(s in REFSET_WRITERS, "C13.R4", "refs-writer:%s:%s" % (s, last),
+                          "the reference set is borrowed mutably only by add_reference",
+                          "`%s` takes mutable access to a heap's set of referenced frozen heaps (`%s`): only "
+                          "add_reference may, and it only inserts - a heap that drops a reference while it is alive "
+                          "lets values added to it dangle" % (s, last), fn=f, line=c.line)
+            elif re.search(r"RefCell::<.*>::into_inner$", c.full):
+                ctx.check(s == "FrozenHeap::into_ref_impl", "C13.R4", "refs-consumer:%s" % s,
+                          "the set is consumed only when the FrozenHeap is sealed into a FrozenHeapRef",
+                          "`%s` consumes a heap's set of referenced frozen heaps" % s, fn=f, line=c.line)
+            elif re.search(r"^(std|core)::mem::(take|replace|swap)", c.name) or REFSET_SHRINK.search(c.name):
+                ctx.bad("C13.R4", "refs-shrink:%s:%s" % (s, last),
+                        "`%s` removes entries from (or replaces) a heap's set of referenced frozen heaps with `%s`: the "
+                        "heap stays alive but no longer keeps the heaps of the values added to it alive" % (s, c.name),
+                        fn=f, line=c.line)
+    ctx.floor("C13.R4", "calls on the reference sets inspected", n, 12, inventory=True)
+    ctx.ok("C13.R4", "refs-only-grow", "no call takes, clears, replaces or shrinks a reference set")
+
+
 def run(ctx):
     F = ctx.facts("core")
+    r4_refs_only_grow(ctx, F)
     r1(ctx, F)
     r2(ctx, F)
     r3(ctx, F)
